@@ -203,6 +203,7 @@ type modDecl struct {
 	name              string
 	prep, start, stop string
 	m                 *modules.Module
+	runs              [3]int32 // invocations of the prep / start / stop routine
 }
 
 type child struct {
@@ -257,8 +258,8 @@ func (c *child) mod(name string) *modDecl {
 	return nil
 }
 
-// ctrlFn builds a lifecycle routine with a programmed outcome ("-" = no routine).
-func ctrlFn(tok string) (func() error, bool) {
+// ctrlFn builds a lifecycle routine with a programmed outcome ("-" = no routine); runs are counted.
+func ctrlFn(tok string, runs *int32) (func() error, bool) {
 	if tok == "-" {
 		return nil, true
 	}
@@ -266,7 +267,60 @@ func ctrlFn(tok string) (func() error, bool) {
 	if !ok || o.kind == "canceled" || o.kind == "restart" {
 		return nil, false
 	}
-	return func() error { return o.apply() }, true
+	return func() error { atomic.AddInt32(runs, 1); return o.apply() }, true
+}
+
+// snapshotRuns / collapseRelaunched: startModules may launch a start routine that has just failed a second
+// time within the same pass (the failed module is Offline again before its report has been consumed, and the
+// pass rescans when another module's report arrives first — a scheduling matter of the lifecycle pass, C01's
+// subject). Each run that panics must be reported once; if that holds, the additional runs' reports are
+// folded so that the line says what ONE run of the routine produced. If it does not hold nothing is folded
+// and the line differs from the model's.
+func (c *child) snapshotRuns() map[string]int32 {
+	m := map[string]int32{}
+	for _, md := range c.mods {
+		for i := range md.runs {
+			m[fmt.Sprintf("%s/%d", md.name, i)] = atomic.LoadInt32(&md.runs[i])
+		}
+	}
+	return m
+}
+
+func (c *child) collapseRelaunched(reps string, before map[string]int32) string {
+	if reps == "-" {
+		return reps
+	}
+	rs := strings.Split(reps, "+")
+	for _, md := range c.mods {
+		for i, tok := range []string{md.prep, md.start, md.stop} {
+			k := int(atomic.LoadInt32(&md.runs[i]) - before[fmt.Sprintf("%s/%d", md.name, i)])
+			if k < 2 || !strings.HasPrefix(tok, "p:") {
+				continue
+			}
+			want := "panic/module-control/" + pvals[tok[2:]].cls
+			n := 0
+			for _, r := range rs {
+				if r == want {
+					n++
+				}
+			}
+			if n < k {
+				continue
+			}
+			fmt.Fprintf(os.Stderr, "C06-RELAUNCH %s routine %d ran %d times in one pass\n", md.name, i, k)
+			drop := k - 1
+			out := rs[:0:0]
+			for j := len(rs) - 1; j >= 0; j-- { // drop the later ones
+				if rs[j] == want && drop > 0 {
+					drop--
+					continue
+				}
+				out = append([]string{rs[j]}, out...)
+			}
+			rs = out
+		}
+	}
+	return strings.Join(rs, "+")
 }
 
 type cnt struct {
@@ -478,9 +532,10 @@ func (c *child) do(line string) string {
 		if len(f) < 5 || len(f) > 6 || c.started || c.apiMode || !validName(f[1]) || c.mod(f[1]) != nil {
 			return "bad-op"
 		}
+		md := &modDecl{name: f[1], prep: f[2], start: f[3], stop: f[4]}
 		var fns [3]func() error
 		for i := 0; i < 3; i++ {
-			fn, ok := ctrlFn(f[2+i])
+			fn, ok := ctrlFn(f[2+i], &md.runs[i])
 			if !ok {
 				return "bad-op"
 			}
@@ -495,7 +550,6 @@ func (c *child) do(line string) string {
 				}
 			}
 		}
-		md := &modDecl{name: f[1], prep: f[2], start: f[3], stop: f[4]}
 		md.m = modules.Register(f[1], fns[0], fns[1], fns[2], deps...)
 		if md.m == nil {
 			return "bad-op"
@@ -567,6 +621,7 @@ func (c *child) do(line string) string {
 				}
 			}
 		}
+		runsBefore := c.snapshotRuns()
 		err := modules.Start()
 		c.waitCtrlIdle()
 		c.startOK = err == nil
@@ -598,15 +653,16 @@ func (c *child) do(line string) string {
 				return time.Since(idleSince) > 60*time.Millisecond
 			})
 		}
-		return fmt.Sprintf("start ret=%s reps=%s", ctrlRetStr(err), c.drain())
+		return fmt.Sprintf("start ret=%s reps=%s", ctrlRetStr(err), c.collapseRelaunched(c.drain(), runsBefore))
 
 	case "manage":
 		if len(f) != 1 || !c.started || !c.mgmt {
 			return "bad-op"
 		}
+		runsBefore := c.snapshotRuns()
 		err := modules.ManageModules()
 		c.waitCtrlIdle()
-		return fmt.Sprintf("manage ret=%s reps=%s st=%s", ctrlRetStr(err), c.drainSorted(), c.statuses())
+		return fmt.Sprintf("manage ret=%s reps=%s st=%s", ctrlRetStr(err), c.collapseRelaunched(c.drainSorted(), runsBefore), c.statuses())
 
 	case "shutdown":
 		if len(f) != 1 || !c.started {
